@@ -1,0 +1,8 @@
+import sys
+
+# Int values of the language are arbitrary precision. Python 3.11 and later
+# refuse to convert ints of more than 4300 digits to or from text unless the
+# limit is lifted; the refusal surfaced as a host ValueError from literals,
+# string(), rendering and comparisons of large ints.
+if hasattr(sys, "set_int_max_str_digits"):
+    sys.set_int_max_str_digits(0)
